@@ -1,2 +1,1227 @@
+(* Proofs about the serializer model (Ser/SerdeModel.v).
+
+   Structure: every model function is shown to behave like a *trace* — the bytes it tries to write,
+   in order, followed by an optional error — fed to the bounded writer (`spec`). The trace of a
+   value is a pure function (`trace`); all theorems are then facts about `trace` and `ref_enc`. *)
 From ZV Require Import Ser.SerdeModel.
 Local Open Scope N_scope.
+
+(* ------------------------------------------------------------------ induction over sval *)
+Section SvalInd.
+Variable P : sval -> Prop.
+Hypothesis HBool : forall b, P (SBool b).
+Hypothesis HInt : forall k z, P (SInt k z).
+Hypothesis HF32 : forall f, P (SF32 f).
+Hypothesis HF64 : forall f, P (SF64 f).
+Hypothesis HChar : forall c, P (SChar c).
+Hypothesis HStr : forall s, P (SStr s).
+Hypothesis HBytes : forall bs, P (SBytes bs).
+Hypothesis HNone : P SNone.
+Hypothesis HSome : forall v, P v -> P (SSome v).
+Hypothesis HUnit : P SUnit.
+Hypothesis HUnitStruct : forall n, P (SUnitStruct n).
+Hypothesis HUnitVariant : forall n i var, P (SUnitVariant n i var).
+Hypothesis HNewtypeStruct : forall n v, P v -> P (SNewtypeStruct n v).
+Hypothesis HNewtypeVariant : forall n i var v, P v -> P (SNewtypeVariant n i var v).
+Hypothesis HSeq : forall len es, Forall P es -> P (SSeq len es).
+Hypothesis HTuple : forall len es, Forall P es -> P (STuple len es).
+Hypothesis HTupleStruct : forall n len es, Forall P es -> P (STupleStruct n len es).
+Hypothesis HTupleVariant : forall n i var len es, Forall P es -> P (STupleVariant n i var len es).
+Hypothesis HMap : forall len kvs, Forall (fun kv => P (snd kv)) kvs -> P (SMap len kvs).
+Hypothesis HStruct : forall n len fs, Forall (fun kv => P (snd kv)) fs -> P (SStruct n len fs).
+Hypothesis HStructVariant : forall n i var len fs, Forall (fun kv => P (snd kv)) fs ->
+                                                   P (SStructVariant n i var len fs).
+
+Fixpoint sval_ind' (v : sval) : P v :=
+  let fix all (es : list sval) : Forall P es :=
+    match es with [] => Forall_nil _ | e :: r => Forall_cons _ (sval_ind' e) (all r) end in
+  let fix allm (kvs : list (sval * sval)) : Forall (fun kv => P (snd kv)) kvs :=
+    match kvs with
+    | [] => Forall_nil _
+    | kv :: r => Forall_cons kv (match kv return P (snd kv) with (_, x) => sval_ind' x end) (allm r)
+    end in
+  let fix allf (fs : list (list byte * sval)) : Forall (fun kv => P (snd kv)) fs :=
+    match fs with
+    | [] => Forall_nil _
+    | kv :: r => Forall_cons kv (match kv return P (snd kv) with (_, x) => sval_ind' x end) (allf r)
+    end in
+  match v with
+  | SBool b => HBool b
+  | SInt k z => HInt k z
+  | SF32 f => HF32 f
+  | SF64 f => HF64 f
+  | SChar c => HChar c
+  | SStr s => HStr s
+  | SBytes bs => HBytes bs
+  | SNone => HNone
+  | SSome x => HSome x (sval_ind' x)
+  | SUnit => HUnit
+  | SUnitStruct n => HUnitStruct n
+  | SUnitVariant n i var => HUnitVariant n i var
+  | SNewtypeStruct n x => HNewtypeStruct n x (sval_ind' x)
+  | SNewtypeVariant n i var x => HNewtypeVariant n i var x (sval_ind' x)
+  | SSeq len es => HSeq len es (all es)
+  | STuple len es => HTuple len es (all es)
+  | STupleStruct n len es => HTupleStruct n len es (all es)
+  | STupleVariant n i var len es => HTupleVariant n i var len es (all es)
+  | SMap len kvs => HMap len kvs (allm kvs)
+  | SStruct n len fs => HStruct n len fs (allf fs)
+  | SStructVariant n i var len fs => HStructVariant n i var len fs (allf fs)
+  end.
+End SvalInd.
+
+(* ------------------------------------------------------------------ traces *)
+Definition T := (list byte * option serr)%type.
+Definition temit (bs : list byte) : T := (bs, None).
+Definition tfail (e : serr) : T := ([], Some e).
+Definition tseq (a b : T) : T :=
+  match snd a with Some _ => a | None => (fst a ++ fst b, snd b) end.
+Infix "+>" := tseq (at level 60, right associativity).
+
+Lemma tseq_emit_l : forall a b, temit a +> b = (a ++ fst b, snd b).
+Proof. reflexivity. Qed.
+Lemma tseq_emit_emit : forall a b, temit a +> temit b = temit (a ++ b).
+Proof. reflexivity. Qed.
+Lemma tseq_fail_l : forall e b, tfail e +> b = tfail e.
+Proof. reflexivity. Qed.
+Lemma tseq_nil_l : forall t, temit [] +> t = t.
+Proof. intros [bs e]. reflexivity. Qed.
+Lemma tseq_nil_r : forall t, t +> temit [] = t.
+Proof. intros [bs [e|]]; unfold tseq; cbn [fst snd temit]; [reflexivity|]. rewrite app_nil_r. reflexivity. Qed.
+Lemma tseq_assoc : forall a b c, (a +> b) +> c = a +> (b +> c).
+Proof.
+  intros [a [ea|]] [b [eb|]] [c ec]; unfold tseq; cbn [fst snd]; try reflexivity.
+  rewrite app_assoc. reflexivity.
+Qed.
+Lemma tseq_emit_fail : forall a e, snd (temit a +> tfail e) = Some e.
+Proof. reflexivity. Qed.
+Lemma tseq_err_l : forall a b e, snd a = Some e -> snd (a +> b) = Some e.
+Proof. intros [a ea] b e H. cbn [snd] in H. subst. reflexivity. Qed.
+Lemma tseq_emit_err : forall a b e, snd b = Some e -> snd (temit a +> b) = Some e.
+Proof. intros a b e H. exact H. Qed.
+
+(* --- the trace of each model function, mirroring SerdeModel.v *)
+Definition t_esc_byte (b : byte) : T :=
+  if escape_of b =? 0 then temit [b]
+  else match classify (escape_of b) b with
+       | None => tfail Unreachable
+       | Some ce => temit (concat (escape_writes ce))
+       end.
+Fixpoint t_contents (s : list byte) : T :=
+  match s with [] => temit [] | b :: r => t_esc_byte b +> t_contents r end.
+Definition t_str (s : list byte) : T := temit [34] +> t_contents s +> temit [34].
+
+Definition sepb (first : bool) : list byte := if first then [] else [44].
+
+Fixpoint t_bytes_loop (first : bool) (value : list byte) : T :=
+  match value with
+  | [] => temit [93]
+  | b :: r => temit (sepb first) +> temit (fmt_int (Z.of_N b)) +> t_bytes_loop false r
+  end.
+Definition t_byte_array (value : list byte) : T := temit [91] +> t_bytes_loop true value.
+
+Fixpoint t_key (k : sval) : T :=
+  match k with
+  | SStr s => t_str s
+  | SUnitVariant _ _ variant => t_str variant
+  | SNewtypeStruct _ x => t_key x
+  | SInt _ z => temit [34] +> temit (fmt_int z) +> temit [34]
+  | SChar c => t_str (utf8_encode c)
+  | _ => tfail KeyMustBeAString
+  end.
+
+Definition t_loop {A} (titem : A -> cstate -> T) (tfin : cstate -> T) :=
+  fix go (l : list A) (st : cstate) : T :=
+    match l with [] => tfin st | a :: r => titem a st +> go r Rest end.
+
+Definition endb (cls : byte) (st : cstate) : list byte := match st with Empty => [] | _ => [cls] end.
+Definition t_seq_element (tf : sval -> T) (e : sval) (st : cstate) : T :=
+  temit (sepb (is_first st)) +> tf e.
+Definition t_seq_end (st : cstate) : T := temit (endb 93 st).
+Definition t_tuple_variant_end (st : cstate) : T := temit (endb 93 st) +> temit [125].
+Definition t_map_key (k : sval) (st : cstate) : T := temit (sepb (is_first st)) +> t_key k.
+Definition t_map_value (tf : sval -> T) (x : sval) : T := temit [58] +> tf x.
+Definition t_map_entry (tf : sval -> T) (kv : sval * sval) (st : cstate) : T :=
+  t_map_key (fst kv) st +> t_map_value tf (snd kv).
+Definition t_struct_field (tf : sval -> T) (kv : list byte * sval) (st : cstate) : T :=
+  t_map_key (SStr (fst kv)) st +> t_map_value tf (snd kv).
+Definition t_map_end (st : cstate) : T := temit (endb 125 st).
+Definition t_struct_variant_end (st : cstate) : T := temit (endb 125 st) +> temit [125].
+Definition t_open (opn cls : byte) (len : option N) (body : cstate -> T) : T :=
+  temit [opn] +> (if hint0 len then temit [cls] +> body Empty else body First).
+Definition t_variant_header (variant : list byte) : T :=
+  temit [123] +> t_str variant +> temit [58].
+
+Fixpoint trace (v : sval) : T :=
+  match v with
+  | SBool b => temit (ref_bool b)
+  | SInt _ z => temit (fmt_int z)
+  | SF32 f | SF64 f => temit (ref_float f)
+  | SChar c => t_str (utf8_encode c)
+  | SStr s => t_str s
+  | SBytes bs => t_byte_array bs
+  | SUnit | SNone | SUnitStruct _ => temit ref_null
+  | SUnitVariant _ _ variant => t_str variant
+  | SNewtypeStruct _ x | SSome x => trace x
+  | SNewtypeVariant _ _ variant x => t_variant_header variant +> trace x +> temit [125]
+  | SSeq len es => t_open 91 93 len (t_loop (t_seq_element trace) t_seq_end es)
+  | STuple len es | STupleStruct _ len es =>
+      t_open 91 93 (Some len) (t_loop (t_seq_element trace) t_seq_end es)
+  | STupleVariant _ _ variant len es =>
+      t_variant_header variant +> t_open 91 93 (Some len) (t_loop (t_seq_element trace) t_tuple_variant_end es)
+  | SMap len kvs => t_open 123 125 len (t_loop (t_map_entry trace) t_map_end kvs)
+  | SStruct _ len fs => t_open 123 125 (Some len) (t_loop (t_struct_field trace) t_map_end fs)
+  | SStructVariant _ _ variant len fs =>
+      t_variant_header variant +> t_open 123 125 (Some len) (t_loop (t_struct_field trace) t_struct_variant_end fs)
+  end.
+
+(* ------------------------------------------------------------------ model = writer fed with the trace *)
+Section Spec.
+Variable avail : N.
+
+Definition wpush (w : writer) (bs : list byte) : writer :=
+  mkW (pos w + N.of_nat (length bs)) (rev_append bs (out w)).
+
+Definition outcome (w : writer) (t : T) : res writer :=
+  if pos w + N.of_nat (length (fst t)) <=? avail
+  then match snd t with None => Ok (wpush w (fst t)) | Some e => Err e end
+  else Err BufferTooSmall.
+
+Definition spec (f : writer -> res writer) (t : T) : Prop :=
+  forall w, pos w <= avail -> f w = outcome w t.
+
+Lemma wpush_nil : forall w, wpush w [] = w.
+Proof. intros [p o]. unfold wpush. cbn [pos out length rev_append]. f_equal. lia. Qed.
+
+Lemma rev_append_app : forall (a b c : list byte), rev_append (a ++ b) c = rev_append b (rev_append a c).
+Proof. induction a as [|x a IH]; intros b c; cbn [app rev_append]; [reflexivity|apply IH]. Qed.
+
+Lemma wpush_app : forall w a b, wpush (wpush w a) b = wpush w (a ++ b).
+Proof.
+  intros [p o] a b. unfold wpush. cbn [pos out]. rewrite rev_append_app, app_length. f_equal. lia.
+Qed.
+
+Lemma spec_write : forall bs, spec (fun w => write_all avail w bs) (temit bs).
+Proof.
+  intros bs w Hw. unfold write_all, outcome. cbn [fst snd temit].
+  destruct (N.ltb_spec avail (pos w + N.of_nat (length bs))) as [H|H];
+    destruct (N.leb_spec (pos w + N.of_nat (length bs)) avail) as [H'|H']; try lia; reflexivity.
+Qed.
+
+Lemma spec_ok : spec (fun w => Ok w) (temit []).
+Proof.
+  intros w Hw. unfold outcome. cbn [fst snd temit length]. rewrite wpush_nil.
+  destruct (N.leb_spec (pos w + N.of_nat 0) avail); [reflexivity|lia].
+Qed.
+
+Lemma spec_err : forall e, spec (fun _ => Err e) (tfail e).
+Proof.
+  intros e w Hw. unfold outcome. cbn [fst snd tfail length].
+  destruct (N.leb_spec (pos w + N.of_nat 0) avail); [reflexivity|lia].
+Qed.
+
+Lemma spec_bind : forall f g a b, spec f a -> spec g b -> spec (fun w => tri (f w) g) (a +> b).
+Proof.
+  intros f g [a ea] [b eb] Hf Hg w Hw. rewrite (Hf w Hw). unfold outcome, tseq. cbn [fst snd].
+  destruct ea as [e|].
+  - cbn [fst snd]. destruct (pos w + N.of_nat (length a) <=? avail); reflexivity.
+  - cbn [fst snd]. rewrite app_length.
+    destruct (N.leb_spec (pos w + N.of_nat (length a)) avail) as [H|H]; cbn [tri].
+    + rewrite (Hg (wpush w a)) by (cbn [wpush pos]; exact H).
+      unfold outcome. cbn [fst snd wpush pos].
+      replace (pos w + N.of_nat (length a) + N.of_nat (length b))
+        with (pos w + N.of_nat (length a + length b)) by lia.
+      destruct (pos w + N.of_nat (length a + length b) <=? avail); [|reflexivity].
+      destruct eb; [reflexivity|]. rewrite wpush_app. reflexivity.
+    + destruct (N.leb_spec (pos w + N.of_nat (length a + length b)) avail); [lia|reflexivity].
+Qed.
+
+Lemma spec_conv : forall f t t', spec f t -> t = t' -> spec f t'.
+Proof. intros f t t' H <-. exact H. Qed.
+
+Lemma spec_ext : forall f g t, (forall w, f w = g w) -> spec g t -> spec f t.
+Proof. intros f g t He H w Hw. rewrite He. apply H. exact Hw. Qed.
+
+(* Formatter pieces *)
+Lemma spec_sep : forall first, spec (fun w => begin_array_value avail w first) (temit (sepb first)).
+Proof. intros [|]; [apply spec_ok|apply spec_write]. Qed.
+Lemma spec_ksep : forall first, spec (fun w => begin_object_key avail w first) (temit (sepb first)).
+Proof. intros [|]; [apply spec_ok|apply spec_write]. Qed.
+
+Lemma spec_write_seq : forall chunks, spec (fun w => write_seq avail w chunks) (temit (concat chunks)).
+Proof.
+  induction chunks as [|c cs IH]; cbn [write_seq concat].
+  - apply spec_ok.
+  - eapply spec_conv; [apply spec_bind; [apply spec_write|exact IH]|reflexivity].
+Qed.
+
+Lemma spec_flush_run : forall run, spec (fun w => flush_run avail w run) (temit (rev run)).
+Proof.
+  intros [|b run]; [apply spec_ok|]. unfold flush_run, write_string_fragment. apply spec_write.
+Qed.
+
+Lemma spec_contents : forall bytes run,
+  spec (fun w => escaped_contents avail w run bytes) (temit (rev run) +> t_contents bytes).
+Proof.
+  induction bytes as [|b rest IH]; intros run; cbn [escaped_contents t_contents].
+  - eapply spec_conv; [apply spec_flush_run|]. rewrite tseq_emit_emit, app_nil_r. reflexivity.
+  - unfold t_esc_byte. destruct (escape_of b =? 0).
+    + eapply spec_conv; [apply IH|]. cbn [rev]. rewrite <- tseq_assoc, tseq_emit_emit. reflexivity.
+    + destruct (classify (escape_of b) b) as [ce|].
+      * eapply spec_conv.
+        { apply spec_bind; [apply spec_flush_run|].
+          apply spec_bind; [apply spec_write_seq|apply (IH [])]. }
+        cbn [rev]. rewrite tseq_nil_l. reflexivity.
+      * eapply spec_conv; [apply spec_bind; [apply spec_flush_run|apply spec_err]|].
+        rewrite tseq_fail_l. reflexivity.
+Qed.
+
+Lemma spec_str : forall s, spec (fun w => format_escaped_str avail w s) (t_str s).
+Proof.
+  intros s. unfold format_escaped_str, t_str.
+  apply spec_bind; [apply spec_write|]. apply spec_bind; [|apply spec_write].
+  eapply spec_conv; [apply (spec_contents s [])|]. cbn [rev]. apply tseq_nil_l.
+Qed.
+
+Lemma spec_bytes_loop : forall value first,
+  spec (fun w => byte_array_loop avail w first value) (t_bytes_loop first value).
+Proof.
+  induction value as [|b rest IH]; intros first; cbn [byte_array_loop t_bytes_loop].
+  - apply spec_write.
+  - apply spec_bind; [apply spec_sep|]. apply spec_bind; [apply spec_write|].
+    unfold end_array_value. cbn [tri]. apply IH.
+Qed.
+
+Lemma spec_byte_array : forall value, spec (fun w => write_byte_array avail w value) (t_byte_array value).
+Proof. intros. apply spec_bind; [apply spec_write|apply spec_bytes_loop]. Qed.
+
+Lemma spec_key : forall k, spec (zkey avail k) (t_key k).
+Proof.
+  induction k; cbn [zkey t_key]; try apply spec_err; try (apply spec_str).
+  - apply spec_bind; [apply spec_write|]. apply spec_bind; apply spec_write.
+  - exact IHk.
+Qed.
+
+Lemma spec_loop : forall A (item : A -> cstate -> writer -> res writer) fin titem tfin l,
+  Forall (fun a => forall st, spec (item a st) (titem a st)) l ->
+  (forall st, spec (fin st) (tfin st)) ->
+  forall st, spec (loop item fin l st) (t_loop titem tfin l st).
+Proof.
+  intros A item fin titem tfin l Hl Hfin. induction Hl as [|a r Ha _ IH]; intros st; cbn [loop t_loop].
+  - apply Hfin.
+  - apply spec_bind; [apply Ha|apply IH].
+Qed.
+
+Lemma spec_seq_end : forall st, spec (seq_end avail st) (t_seq_end st).
+Proof. intros [| |]; [apply spec_ok|apply spec_write|apply spec_write]. Qed.
+Lemma spec_map_end : forall st, spec (map_end avail st) (t_map_end st).
+Proof. intros [| |]; [apply spec_ok|apply spec_write|apply spec_write]. Qed.
+Lemma spec_tuple_variant_end : forall st, spec (tuple_variant_end avail st) (t_tuple_variant_end st).
+Proof.
+  intros st. unfold tuple_variant_end, t_tuple_variant_end, end_object_value.
+  apply spec_bind; [|cbn [tri]; apply spec_write].
+  destruct st; [apply spec_ok|apply spec_write|apply spec_write].
+Qed.
+Lemma spec_struct_variant_end : forall st, spec (struct_variant_end avail st) (t_struct_variant_end st).
+Proof.
+  intros st. unfold struct_variant_end, t_struct_variant_end, end_object_value.
+  apply spec_bind; [|cbn [tri]; apply spec_write].
+  destruct st; [apply spec_ok|apply spec_write|apply spec_write].
+Qed.
+
+Lemma spec_seq_element : forall f tf e st, spec (f e) (tf e) ->
+  spec (seq_element avail f e st) (t_seq_element tf e st).
+Proof.
+  intros f tf e st H. unfold seq_element, t_seq_element, end_array_value.
+  apply spec_bind; [apply spec_sep|].
+  eapply spec_conv; [apply spec_bind; [exact H|apply spec_ok]|apply tseq_nil_r].
+Qed.
+
+Lemma spec_map_key : forall k st, spec (map_key avail k st) (t_map_key k st).
+Proof.
+  intros k st. unfold map_key, t_map_key, end_object_key.
+  apply spec_bind; [apply spec_ksep|].
+  eapply spec_conv; [apply spec_bind; [apply spec_key|apply spec_ok]|apply tseq_nil_r].
+Qed.
+
+Lemma spec_map_value : forall f tf x, spec (f x) (tf x) -> spec (map_value avail f x) (t_map_value tf x).
+Proof.
+  intros f tf x H. unfold map_value, t_map_value, end_object_value.
+  apply spec_bind; [apply spec_write|].
+  eapply spec_conv; [apply spec_bind; [exact H|apply spec_ok]|apply tseq_nil_r].
+Qed.
+
+Lemma spec_map_entry : forall f tf kv st, spec (f (snd kv)) (tf (snd kv)) ->
+  spec (map_entry avail f kv st) (t_map_entry tf kv st).
+Proof.
+  intros f tf [k x] st H. unfold map_entry, t_map_entry. cbn [fst snd] in *.
+  apply spec_bind; [apply spec_map_key|apply spec_map_value; exact H].
+Qed.
+
+Lemma spec_struct_field : forall f tf kv st, spec (f (snd kv)) (tf (snd kv)) ->
+  spec (struct_field avail f kv st) (t_struct_field tf kv st).
+Proof.
+  intros f tf [k x] st H. unfold struct_field, t_struct_field. cbn [fst snd] in *.
+  apply spec_bind; [apply spec_map_key|apply spec_map_value; exact H].
+Qed.
+
+Lemma spec_serialize_seq : forall len body tbody, (forall st, spec (body st) (tbody st)) ->
+  spec (serialize_seq avail len body) (t_open 91 93 len tbody).
+Proof.
+  intros len body tbody H. unfold serialize_seq, t_open.
+  apply spec_bind; [apply spec_write|]. destruct (hint0 len); [|apply H].
+  apply spec_bind; [apply spec_write|apply H].
+Qed.
+
+Lemma spec_serialize_map : forall len body tbody, (forall st, spec (body st) (tbody st)) ->
+  spec (serialize_map avail len body) (t_open 123 125 len tbody).
+Proof.
+  intros len body tbody H. unfold serialize_map, t_open.
+  apply spec_bind; [apply spec_write|]. destruct (hint0 len); [|apply H].
+  apply spec_bind; [apply spec_write|apply H].
+Qed.
+
+Lemma spec_variant_header : forall variant, spec (variant_header avail variant) (t_variant_header variant).
+Proof.
+  intros variant. unfold variant_header, t_variant_header, begin_object_key, end_object_key.
+  apply spec_bind; [apply spec_write|]. cbn [tri].
+  apply spec_bind; [apply spec_str|apply spec_write].
+Qed.
+
+Lemma Forall_elems : forall (P : sval -> Prop) (Q : sval -> Prop) es,
+  (forall e, P e -> Q e) -> Forall P es -> Forall Q es.
+Proof. intros P Q es H HF. eapply Forall_impl; eassumption. Qed.
+
+(* the value serializer behaves as the writer fed with the value's trace *)
+Theorem zs_spec : forall v, spec (zs avail v) (trace v).
+Proof.
+  induction v using sval_ind'; cbn [zs trace].
+  - apply spec_write.
+  - apply spec_write.
+  - destruct f; apply spec_write.
+  - destruct f; apply spec_write.
+  - apply spec_str.
+  - apply spec_str.
+  - apply spec_byte_array.
+  - apply spec_write.
+  - exact IHv.
+  - apply spec_write.
+  - apply spec_write.
+  - apply spec_str.
+  - exact IHv.
+  - apply spec_bind; [apply spec_variant_header|]. apply spec_bind; [exact IHv|].
+    unfold end_object_value. cbn [tri]. apply spec_write.
+  - apply spec_serialize_seq. intros st. apply spec_loop; [|apply spec_seq_end].
+    eapply Forall_impl; [|exact H]. intros e He st'. apply spec_seq_element. exact He.
+  - apply spec_serialize_seq. intros st. apply spec_loop; [|apply spec_seq_end].
+    eapply Forall_impl; [|exact H]. intros e He st'. apply spec_seq_element. exact He.
+  - apply spec_serialize_seq. intros st. apply spec_loop; [|apply spec_seq_end].
+    eapply Forall_impl; [|exact H]. intros e He st'. apply spec_seq_element. exact He.
+  - apply spec_bind; [apply spec_variant_header|].
+    apply spec_serialize_seq. intros st. apply spec_loop; [|apply spec_tuple_variant_end].
+    eapply Forall_impl; [|exact H]. intros e He st'. apply spec_seq_element. exact He.
+  - apply spec_serialize_map. intros st. apply spec_loop; [|apply spec_map_end].
+    eapply Forall_impl; [|exact H]. intros e He st'. apply spec_map_entry. exact He.
+  - apply spec_serialize_map. intros st. apply spec_loop; [|apply spec_map_end].
+    eapply Forall_impl; [|exact H]. intros e He st'. apply spec_struct_field. exact He.
+  - apply spec_bind; [apply spec_variant_header|].
+    apply spec_serialize_map. intros st. apply spec_loop; [|apply spec_struct_variant_end].
+    eapply Forall_impl; [|exact H]. intros e He st'. apply spec_struct_field. exact He.
+Qed.
+
+End Spec.
+
+(* what to_slice returns, in terms of the trace *)
+Theorem zser_trace : forall v n,
+  zser v n = if N.of_nat (length (fst (trace v))) <=? n
+             then match snd (trace v) with None => Ok (fst (trace v)) | Some e => Err e end
+             else Err BufferTooSmall.
+Proof.
+  intros v n. unfold zser, zser_at. rewrite (zs_spec n v wnew) by (cbn [wnew pos]; lia).
+  unfold outcome. cbn [wnew pos]. rewrite N.add_0_l.
+  destruct (N.of_nat (length (fst (trace v))) <=? n); [|reflexivity].
+  destruct (snd (trace v)); [reflexivity|]. cbn [tri wpush out wnew].
+  rewrite rev_append_rev, app_nil_r, rev_involutive. reflexivity.
+Qed.
+
+(* ------------------------------------------------------------------ the trace, characterised *)
+
+(* every byte is escaped exactly as the reference escapes it (uses the table theorem re-proved
+   against the translated table on every run); the `unreachable_unchecked` arm is never taken *)
+Lemma t_esc_byte_ref : forall b, t_esc_byte b = temit (ref_byte b).
+Proof.
+  intros b. unfold t_esc_byte, ref_byte.
+  destruct (N.lt_ge_cases b 256) as [Hb|Hb].
+  - destruct (C03_escape_table b Hb) as [Hiff Hesc].
+    destruct (N.eqb_spec (escape_of b) 0) as [Hz|Hnz].
+    + destruct (needs_escape b) eqn:Hn; [|reflexivity].
+      apply needs_escape_spec in Hn. apply Hiff in Hn. contradiction.
+    + destruct (Hesc Hnz) as (ce & Hc & Hw). rewrite Hc, Hw.
+      replace (needs_escape b) with true; [reflexivity|].
+      symmetry. apply needs_escape_spec. apply Hiff. exact Hnz.
+  - rewrite (escape_of_big b Hb). cbn [N.eqb].
+    replace (needs_escape b) with false; [reflexivity|].
+    symmetry. unfold needs_escape. rewrite !orb_false_iff, N.ltb_ge, !N.eqb_neq. lia.
+Qed.
+
+Lemma t_contents_ref : forall s, t_contents s = temit (flat_map ref_byte s).
+Proof.
+  induction s as [|b r IH]; cbn [t_contents flat_map]; [reflexivity|].
+  rewrite t_esc_byte_ref, IH. apply tseq_emit_emit.
+Qed.
+
+Lemma t_str_ref : forall s, t_str s = temit (ref_string s).
+Proof. intros s. unfold t_str, ref_string. rewrite t_contents_ref, !tseq_emit_emit. reflexivity. Qed.
+
+(* items each preceded by a comma / the same without the very first comma *)
+Definition commas (items : list (list byte)) : list byte := concat (map (fun i => 44 :: i) items).
+Definition body (first : bool) (items : list (list byte)) : list byte :=
+  match items with [] => [] | i :: r => sepb first ++ i ++ commas r end.
+Definition st_after {A} (st : cstate) (l : list A) : cstate := match l with [] => st | _ => Rest end.
+
+Lemma join_commas : forall i r, join [44] (i :: r) = i ++ commas r.
+Proof.
+  intros i r. revert i. induction r as [|j r IH]; intros i.
+  - cbn. rewrite app_nil_r. reflexivity.
+  - change (join [44] (i :: j :: r)) with (i ++ [44] ++ join [44] (j :: r)). rewrite IH. reflexivity.
+Qed.
+
+Lemma body_false : forall items, body false items = commas items.
+Proof. intros [|i r]; reflexivity. Qed.
+
+Lemma bracket_ok : forall (opn cls : byte) (early : bool) items,
+  [opn] ++ (if early then [cls] ++ body false items ++ endb cls (st_after Empty items)
+            else body true items ++ endb cls (st_after First items))
+  = bracketed opn cls early items.
+Proof.
+  intros opn cls early [|i r]; destruct early; cbn [body st_after endb bracketed sepb app];
+    try reflexivity; rewrite join_commas.
+  - cbn [app]. rewrite <- !app_assoc. reflexivity.
+  - rewrite <- !app_assoc. reflexivity.
+Qed.
+
+Lemma t_bytes_loop_ref : forall value first,
+  t_bytes_loop first value = temit (body first (map (fun b => fmt_int (Z.of_N b)) value) ++ [93]).
+Proof.
+  induction value as [|b r IH]; intros first; cbn [t_bytes_loop map]; [reflexivity|].
+  rewrite IH, !tseq_emit_emit, body_false. cbn [body]. rewrite <- !app_assoc. reflexivity.
+Qed.
+
+Lemma t_byte_array_ref : forall value,
+  t_byte_array value = temit (ref_array false (map (fun b => fmt_int (Z.of_N b)) value)).
+Proof.
+  intros value. unfold t_byte_array, ref_array. rewrite t_bytes_loop_ref, tseq_emit_emit.
+  rewrite <- (bracket_ok 91 93 false). f_equal. f_equal.
+  destruct value; reflexivity.
+Qed.
+
+Definition KEY := KeyMustBeAString.
+
+Lemma t_key_char : forall k,
+  (key_ok k = true -> exists bs, t_key k = temit bs /\ ref_key k = Some bs) /\
+  (key_ok k = false -> t_key k = tfail KEY).
+Proof.
+  induction k; cbn [key_ok t_key ref_key]; split; intros Hk; try discriminate; try reflexivity.
+  - eexists. split; [rewrite !tseq_emit_emit; reflexivity|reflexivity].
+  - eexists. split; [apply t_str_ref|reflexivity].
+  - eexists. split; [apply t_str_ref|reflexivity].
+  - eexists. split; [apply t_str_ref|reflexivity].
+  - apply IHk. exact Hk.
+  - apply IHk. exact Hk.
+Qed.
+
+Lemma t_loop_char : forall A (titem : A -> cstate -> T) tfin (ok : A -> bool)
+                           (ritem : A -> option (list byte)) (fb : cstate -> list byte) l,
+  (forall st, tfin st = temit (fb st)) ->
+  Forall (fun a => (ok a = true -> exists i, ritem a = Some i /\
+                                   forall st, titem a st = temit (sepb (is_first st) ++ i)) /\
+                   (ok a = false -> forall st, snd (titem a st) = Some KEY)) l ->
+  (forallb ok l = true ->
+     exists items, sequence (map ritem l) = Some items /\
+       forall st, t_loop titem tfin l st = temit (body (is_first st) items ++ fb (st_after st items))) /\
+  (forallb ok l = false -> forall st, snd (t_loop titem tfin l st) = Some KEY).
+Proof.
+  intros A titem tfin ok ritem fb l Hfin Hl. induction Hl as [|a r [Hat Haf] _ [IHt IHf]].
+  - split; [|discriminate]. intros _. exists []. split; [reflexivity|]. intros st. apply Hfin.
+  - cbn [forallb]. split.
+    + intros H. apply andb_true_iff in H. destruct H as [Ha Hr].
+      destruct (Hat Ha) as (i & Hi & Hti). destruct (IHt Hr) as (items & Hs & Ht).
+      exists (i :: items). split.
+      * cbn [map sequence]. rewrite Hi, Hs. reflexivity.
+      * intros st. cbn [t_loop]. rewrite Hti, Ht, tseq_emit_emit. cbn [is_first body st_after].
+        rewrite body_false, <- !app_assoc.
+        replace (st_after Rest items) with Rest by (destruct items; reflexivity). reflexivity.
+    + intros H st. cbn [t_loop]. destruct (ok a) eqn:Ha.
+      * destruct (Hat eq_refl) as (i & _ & Hti). rewrite Hti. apply tseq_emit_err. apply IHf. exact H.
+      * apply tseq_err_l. apply Haf. reflexivity.
+Qed.
+
+Definition char_of (v : sval) : Prop :=
+  (keys_ok v = true -> exists bs, trace v = temit bs /\ ref_enc v = Some bs) /\
+  (keys_ok v = false -> snd (trace v) = Some KEY).
+
+Lemma t_open_char : forall opn cls A (titem : A -> cstate -> T) tfin ok ritem fb l,
+  (forall st, tfin st = temit (fb st)) ->
+  Forall (fun a => (ok a = true -> exists i, ritem a = Some i /\
+                                   forall st, titem a st = temit (sepb (is_first st) ++ i)) /\
+                   (ok a = false -> forall st, snd (titem a st) = Some KEY)) l ->
+  (forallb ok l = true ->
+     exists items, sequence (map ritem l) = Some items /\
+       forall len, t_open opn cls len (t_loop titem tfin l)
+                   = temit ([opn] ++ if hint0 len then [cls] ++ body false items ++ fb (st_after Empty items)
+                                     else body true items ++ fb (st_after First items))) /\
+  (forallb ok l = false -> forall len, snd (t_open opn cls len (t_loop titem tfin l)) = Some KEY).
+Proof.
+  intros opn cls A titem tfin ok ritem fb l Hfin Hl.
+  destruct (t_loop_char A titem tfin ok ritem fb l Hfin Hl) as [Ht Hf]. split.
+  - intros H. destruct (Ht H) as (items & Hs & Hl'). exists items. split; [exact Hs|].
+    intros len. unfold t_open. destruct (hint0 len); rewrite !Hl', !tseq_emit_emit; reflexivity.
+  - intros H len. unfold t_open. apply tseq_emit_err. destruct (hint0 len).
+    + apply tseq_emit_err. apply Hf. exact H.
+    + apply Hf. exact H.
+Qed.
+
+Lemma elems_premise : forall es, Forall char_of es ->
+  Forall (fun a => (keys_ok a = true -> exists i, ref_enc a = Some i /\
+                      forall st, t_seq_element trace a st = temit (sepb (is_first st) ++ i)) /\
+                   (keys_ok a = false -> forall st, snd (t_seq_element trace a st) = Some KEY)) es.
+Proof.
+  intros es H. eapply Forall_impl; [|exact H]. intros a [Ht Hf]. split.
+  - intros Hk. destruct (Ht Hk) as (bs & Htr & Hr). exists bs. split; [exact Hr|].
+    intros st. unfold t_seq_element. rewrite Htr. apply tseq_emit_emit.
+  - intros Hk st. unfold t_seq_element. apply tseq_emit_err. apply Hf. exact Hk.
+Qed.
+
+Lemma member_premise : forall (k : sval) (x : sval),
+  char_of x ->
+  (key_ok k && keys_ok x = true -> exists i, ref_member (ref_key k) (ref_enc x) = Some i /\
+      forall st, t_map_key k st +> t_map_value trace x = temit (sepb (is_first st) ++ i)) /\
+  (key_ok k && keys_ok x = false -> forall st, snd (t_map_key k st +> t_map_value trace x) = Some KEY).
+Proof.
+  intros k x [Ht Hf]. destruct (t_key_char k) as [Hkt Hkf]. split.
+  - intros H. apply andb_true_iff in H. destruct H as [Hk Hx].
+    destruct (Hkt Hk) as (kb & Hkb & Hrk). destruct (Ht Hx) as (xb & Hxb & Hrx).
+    exists (member_text (kb, xb)). rewrite Hrk, Hrx. split; [reflexivity|].
+    intros st. unfold t_map_key, t_map_value. rewrite Hkb, Hxb, !tseq_emit_emit.
+    unfold member_text. cbn [fst snd]. rewrite <- !app_assoc. reflexivity.
+  - intros H st. unfold t_map_key, t_map_value. destruct (key_ok k) eqn:Hk.
+    + destruct (Hkt eq_refl) as (kb & Hkb & _). rewrite Hkb, tseq_emit_emit.
+      apply tseq_emit_err. apply tseq_emit_err. apply Hf. exact H.
+    + rewrite (Hkf eq_refl). reflexivity.
+Qed.
+
+Lemma entries_premise : forall kvs, Forall (fun kv : sval * sval => char_of (snd kv)) kvs ->
+  Forall (fun kv => (key_ok (fst kv) && keys_ok (snd kv) = true ->
+                       exists i, ref_member (ref_key (fst kv)) (ref_enc (snd kv)) = Some i /\
+                         forall st, t_map_entry trace kv st = temit (sepb (is_first st) ++ i)) /\
+                    (key_ok (fst kv) && keys_ok (snd kv) = false ->
+                       forall st, snd (t_map_entry trace kv st) = Some KEY)) kvs.
+Proof.
+  intros kvs H. eapply Forall_impl; [|exact H]. intros [k x] Hx. cbn [fst snd] in *.
+  unfold t_map_entry. cbn [fst snd]. apply member_premise. exact Hx.
+Qed.
+
+Lemma fields_premise : forall fs, Forall (fun kv : list byte * sval => char_of (snd kv)) fs ->
+  Forall (fun kv => (keys_ok (snd kv) = true ->
+                       exists i, ref_member (Some (ref_string (fst kv))) (ref_enc (snd kv)) = Some i /\
+                         forall st, t_struct_field trace kv st = temit (sepb (is_first st) ++ i)) /\
+                    (keys_ok (snd kv) = false ->
+                       forall st, snd (t_struct_field trace kv st) = Some KEY)) fs.
+Proof.
+  intros fs H. eapply Forall_impl; [|exact H]. intros [k x] Hx. cbn [fst snd] in *.
+  unfold t_struct_field. cbn [fst snd].
+  destruct (member_premise (SStr k) x Hx) as [Ht Hf]. cbn [key_ok ref_key andb] in *. split; assumption.
+Qed.
+
+Lemma t_variant_header_ref : forall variant,
+  t_variant_header variant = temit ([123] ++ ref_string variant ++ [58]).
+Proof. intros. unfold t_variant_header. rewrite t_str_ref, !tseq_emit_emit. reflexivity. Qed.
+
+Lemma tagged_ok : forall variant content,
+  [123] ++ ref_string variant ++ [58] ++ content ++ [125] = ref_tagged variant content.
+Proof.
+  intros. unfold ref_tagged, ref_object, bracketed, member_text. cbn [join fst snd map].
+  rewrite <- !app_assoc. reflexivity.
+Qed.
+
+(* The trace of a value whose keys are all acceptable is exactly the reference encoding, with no
+   error; a value with an unacceptable key somewhere ends in KeyMustBeAString. *)
+Theorem trace_char : forall v, char_of v.
+Proof.
+  induction v using sval_ind'; unfold char_of; cbn [keys_ok trace ref_enc];
+    try (split; [intros _; eexists; split; reflexivity|discriminate]).
+  - (* char *) split; [intros _; eexists; split; [apply t_str_ref|reflexivity]|discriminate].
+  - (* str *) split; [intros _; eexists; split; [apply t_str_ref|reflexivity]|discriminate].
+  - (* bytes *) split; [intros _; eexists; split; [apply t_byte_array_ref|reflexivity]|discriminate].
+  - exact IHv.
+  - (* unit variant *) split; [intros _; eexists; split; [apply t_str_ref|reflexivity]|discriminate].
+  - exact IHv.
+  - (* newtype variant *) destruct IHv as [Ht Hf]. split.
+    + intros Hk. destruct (Ht Hk) as (bs & Htr & Hr). rewrite Htr, Hr, t_variant_header_ref.
+      eexists. split; [rewrite !tseq_emit_emit; reflexivity|]. cbn [option_map]. f_equal.
+      rewrite <- tagged_ok, <- !app_assoc. reflexivity.
+    + intros Hk. rewrite t_variant_header_ref. apply tseq_emit_err. apply tseq_err_l. apply Hf. exact Hk.
+  - (* seq *)
+    destruct (t_open_char 91 93 _ (t_seq_element trace) t_seq_end keys_ok ref_enc (endb 93) es
+                (fun st => eq_refl) (elems_premise es H)) as [Ht Hf]. split.
+    + intros Hk. destruct (Ht Hk) as (items & Hs & Ho). rewrite Hs, Ho. eexists. split; [reflexivity|].
+      cbn [option_map]. f_equal. symmetry. apply bracket_ok.
+    + intros Hk. apply Hf. exact Hk.
+  - (* tuple *)
+    destruct (t_open_char 91 93 _ (t_seq_element trace) t_seq_end keys_ok ref_enc (endb 93) es
+                (fun st => eq_refl) (elems_premise es H)) as [Ht Hf]. split.
+    + intros Hk. destruct (Ht Hk) as (items & Hs & Ho). rewrite Hs, Ho. eexists. split; [reflexivity|].
+      cbn [option_map]. f_equal. symmetry. apply bracket_ok.
+    + intros Hk. apply Hf. exact Hk.
+  - (* tuple struct *)
+    destruct (t_open_char 91 93 _ (t_seq_element trace) t_seq_end keys_ok ref_enc (endb 93) es
+                (fun st => eq_refl) (elems_premise es H)) as [Ht Hf]. split.
+    + intros Hk. destruct (Ht Hk) as (items & Hs & Ho). rewrite Hs, Ho. eexists. split; [reflexivity|].
+      cbn [option_map]. f_equal. symmetry. apply bracket_ok.
+    + intros Hk. apply Hf. exact Hk.
+  - (* tuple variant *)
+    destruct (t_open_char 91 93 _ (t_seq_element trace) t_tuple_variant_end keys_ok ref_enc
+                (fun st => endb 93 st ++ [125]) es (fun st => eq_refl) (elems_premise es H)) as [Ht Hf].
+    split.
+    + intros Hk. destruct (Ht Hk) as (items & Hs & Ho). rewrite Hs, Ho, t_variant_header_ref.
+      eexists. split; [rewrite tseq_emit_emit; reflexivity|]. cbn [option_map]. f_equal.
+      rewrite <- tagged_ok, <- (bracket_ok 91 93). unfold ref_array.
+      destruct (hint0 (Some len)); rewrite <- !app_assoc; reflexivity.
+    + intros Hk. rewrite t_variant_header_ref. apply tseq_emit_err. apply Hf. exact Hk.
+  - (* map *)
+    destruct (t_open_char 123 125 _ (t_map_entry trace) t_map_end
+                (fun kv => key_ok (fst kv) && keys_ok (snd kv))
+                (fun kv => ref_member (ref_key (fst kv)) (ref_enc (snd kv))) (endb 125) kvs
+                (fun st => eq_refl) (entries_premise kvs H)) as [Ht Hf]. split.
+    + intros Hk. destruct (Ht Hk) as (items & Hs & Ho). rewrite Hs, Ho. eexists. split; [reflexivity|].
+      cbn [option_map]. f_equal. symmetry. apply bracket_ok.
+    + intros Hk. apply Hf. exact Hk.
+  - (* struct *)
+    destruct (t_open_char 123 125 _ (t_struct_field trace) t_map_end
+                (fun kv => keys_ok (snd kv))
+                (fun kv => ref_member (Some (ref_string (fst kv))) (ref_enc (snd kv))) (endb 125) fs
+                (fun st => eq_refl) (fields_premise fs H)) as [Ht Hf]. split.
+    + intros Hk. destruct (Ht Hk) as (items & Hs & Ho). rewrite Hs, Ho. eexists. split; [reflexivity|].
+      cbn [option_map]. f_equal. symmetry. apply bracket_ok.
+    + intros Hk. apply Hf. exact Hk.
+  - (* struct variant *)
+    destruct (t_open_char 123 125 _ (t_struct_field trace) t_struct_variant_end
+                (fun kv => keys_ok (snd kv))
+                (fun kv => ref_member (Some (ref_string (fst kv))) (ref_enc (snd kv)))
+                (fun st => endb 125 st ++ [125]) fs
+                (fun st => eq_refl) (fields_premise fs H)) as [Ht Hf]. split.
+    + intros Hk. destruct (Ht Hk) as (items & Hs & Ho). rewrite Hs, Ho, t_variant_header_ref.
+      eexists. split; [rewrite tseq_emit_emit; reflexivity|]. cbn [option_map]. f_equal.
+      rewrite <- tagged_ok, <- (bracket_ok 123 125). unfold ref_object.
+      destruct (hint0 (Some len)); rewrite <- !app_assoc; reflexivity.
+    + intros Hk. rewrite t_variant_header_ref. apply tseq_emit_err. apply Hf. exact Hk.
+Qed.
+
+(* ================================================================== the theorems *)
+
+Lemma trace_ok_or_key : forall v,
+  (keys_ok v = true /\ exists bs, trace v = temit bs /\ ref_enc v = Some bs) \/
+  (keys_ok v = false /\ snd (trace v) = Some KEY).
+Proof.
+  intros v. destruct (trace_char v) as [Ht Hf]. destruct (keys_ok v); [left|right]; auto.
+Qed.
+
+(* success means: the keys were acceptable and the bytes are the reference bytes *)
+Lemma zser_ok_inv : forall v n bs, zser v n = Ok bs ->
+  keys_ok v = true /\ ref_enc v = Some bs /\ trace v = temit bs /\ N.of_nat (length bs) <= n.
+Proof.
+  intros v n bs H. rewrite zser_trace in H.
+  destruct (N.leb_spec (N.of_nat (length (fst (trace v)))) n) as [Hle|Hgt]; [|discriminate].
+  destruct (trace_ok_or_key v) as [(Hk & bs' & Ht & Hr)|(Hk & He)].
+  - rewrite Ht in *. cbn [fst snd temit] in *. inversion H; subst. auto.
+  - rewrite He in H. discriminate.
+Qed.
+
+Theorem equal : forall v n bs, zser v n = Ok bs -> ref_enc v = Some bs.
+Proof. intros v n bs H. apply (zser_ok_inv v n bs H). Qed.
+
+Theorem buffer_independent : forall v n bs, zser v n = Ok bs ->
+  N.of_nat (length bs) <= n /\
+  forall m, (N.of_nat (length bs) <= m -> zser v m = Ok bs) /\
+            (m < N.of_nat (length bs) -> zser v m = Err BufferTooSmall).
+Proof.
+  intros v n bs H. destruct (zser_ok_inv v n bs H) as (_ & _ & Ht & Hn). split; [exact Hn|].
+  intros m. rewrite zser_trace, Ht. cbn [fst snd temit]. split; intros Hm.
+  - destruct (N.leb_spec (N.of_nat (length bs)) m); [reflexivity|lia].
+  - destruct (N.leb_spec (N.of_nat (length bs)) m); [lia|reflexivity].
+Qed.
+
+Theorem never_unreachable : forall v n, zser v n <> Err Unreachable.
+Proof.
+  intros v n. rewrite zser_trace. destruct (N.of_nat (length (fst (trace v))) <=? n); [|discriminate].
+  destruct (trace_ok_or_key v) as [(_ & bs & Ht & _)|(_ & He)].
+  - rewrite Ht. discriminate.
+  - rewrite He. discriminate.
+Qed.
+
+Theorem bad_keys_refused : forall v, keys_ok v = false ->
+  (forall n bs, zser v n <> Ok bs) /\
+  exists n0, forall n, (n0 <= n -> zser v n = Err KeyMustBeAString) /\
+                       (n < n0 -> zser v n = Err BufferTooSmall).
+Proof.
+  intros v Hk. split.
+  - intros n bs H. apply zser_ok_inv in H. destruct H as [H _]. congruence.
+  - exists (N.of_nat (length (fst (trace v)))). intros n. rewrite zser_trace.
+    destruct (trace_char v) as [_ Hf]. rewrite (Hf Hk). split; intros Hn.
+    + destruct (N.leb_spec (N.of_nat (length (fst (trace v)))) n); [reflexivity|lia].
+    + destruct (N.leb_spec (N.of_nat (length (fst (trace v)))) n); [lia|reflexivity].
+Qed.
+
+(* and conversely, acceptable keys always serialize once the buffer is large enough *)
+Theorem good_keys_accepted : forall v, keys_ok v = true ->
+  exists bs, ref_enc v = Some bs /\ forall n, N.of_nat (length bs) <= n -> zser v n = Ok bs.
+Proof.
+  intros v Hk. destruct (trace_char v) as [Ht _]. destruct (Ht Hk) as (bs & Htr & Hr).
+  exists bs. split; [exact Hr|]. intros n Hn. rewrite zser_trace, Htr. cbn [fst snd temit].
+  destruct (N.leb_spec (N.of_nat (length bs)) n); [reflexivity|lia].
+Qed.
+
+(* ------------------------------------------------------------------ predicates closed under
+   concatenation carry over from the strings of a value to its encoding *)
+Lemma all_of_Forall : forall A (P : A -> Prop) l, all_of P l <-> Forall P l.
+Proof.
+  intros A P l. induction l as [|a r IH]; cbn [all_of fold_right].
+  - split; [constructor|trivial].
+  - fold (all_of P r). rewrite IH. split; [intros [? ?]; constructor; assumption|inversion 1; auto].
+Qed.
+
+Lemma sequence_Forall2 : forall A B (f : A -> option B) l items,
+  sequence (map f l) = Some items -> Forall2 (fun a i => f a = Some i) l items.
+Proof.
+  intros A B f l. induction l as [|a r IH]; intros items H; cbn [map sequence] in H.
+  - inversion H. constructor.
+  - destruct (f a) as [i|] eqn:Hf; [|discriminate].
+    destruct (sequence (map f r)) as [xs|] eqn:Hs; [|discriminate]. inversion H; subst.
+    constructor; [exact Hf|apply IH; reflexivity].
+Qed.
+
+Section Closed.
+Variable Q : list byte -> Prop.
+Hypothesis Qapp : forall a b, Q a -> Q b -> Q (a ++ b).
+Hypothesis Qascii : forall l, Forall (fun b => 32 <= b < 128) l -> Q l.
+Variables (Pf Ps : list byte -> Prop) (Pc : N -> Prop).
+Hypothesis Qtok : forall tok, Pf tok -> Q tok.
+Hypothesis Qstr : forall s, Ps s -> Q (ref_string s).
+Hypothesis Qchar : forall c, Pc c -> Q (ref_string (utf8_encode c)).
+
+Lemma Q1 : forall b, 32 <= b < 128 -> Q [b].
+Proof. intros b Hb. apply Qascii. constructor; [exact Hb|constructor]. Qed.
+Lemma Qnil : Q [].
+Proof. apply Qascii. constructor. Qed.
+
+Lemma Q_join : forall items, Forall Q items -> Q (join [44] items).
+Proof.
+  induction 1 as [|i r Hi Hr IH]; [apply Qnil|].
+  destruct r as [|j r']; [exact Hi|].
+  change (join [44] (i :: j :: r')) with (i ++ [44] ++ join [44] (j :: r')).
+  apply Qapp; [exact Hi|]. apply Qapp; [apply Q1; lia|exact IH].
+Qed.
+
+Lemma Q_bracketed : forall opn cls early items, 32 <= opn < 128 -> 32 <= cls < 128 ->
+  Forall Q items -> Q (bracketed opn cls early items).
+Proof.
+  intros opn cls early items Ho Hc Hi. unfold bracketed. destruct items as [|i r].
+  - apply Qascii. repeat constructor; lia.
+  - destruct early.
+    + apply Qapp; [apply Qascii; repeat constructor; lia|].
+      apply Qapp; [apply Q_join; exact Hi|apply Q1; exact Hc].
+    + apply Qapp; [apply Q1; exact Ho|]. apply Qapp; [apply Q_join; exact Hi|apply Q1; exact Hc].
+Qed.
+
+Lemma Q_int : forall z, Q (fmt_int z).
+Proof.
+  intros z. apply Qascii. eapply Forall_impl; [|apply fmt_int_bytes]. cbv beta. intros; lia.
+Qed.
+Lemma Q_bool : forall b, Q (ref_bool b).
+Proof. intros [|]; apply Qascii; repeat constructor; lia. Qed.
+Lemma Q_null : Q ref_null.
+Proof. apply Qascii; repeat constructor; lia. Qed.
+Lemma Q_float : forall f, fval_All Pf f -> Q (ref_float f).
+Proof. intros [tok|] H; [apply Qtok; exact H|apply Q_null]. Qed.
+Lemma Q_quoted : forall t, Q t -> Q (quoted t).
+Proof. intros t H. unfold quoted. apply Qapp; [apply Q1; lia|]. apply Qapp; [exact H|apply Q1; lia]. Qed.
+Lemma Q_member : forall k x, Q k -> Q x -> Q (member_text (k, x)).
+Proof.
+  intros k x Hk Hx. unfold member_text. cbn [fst snd].
+  apply Qapp; [exact Hk|]. apply Qapp; [apply Q1; lia|exact Hx].
+Qed.
+Lemma Q_tagged : forall variant content, Ps variant -> Q content -> Q (ref_tagged variant content).
+Proof.
+  intros variant content Hv Hc. unfold ref_tagged, ref_object.
+  apply Q_bracketed; try lia. constructor; [|constructor]. apply Q_member; [apply Qstr; exact Hv|exact Hc].
+Qed.
+
+Lemma Q_key : forall k bs, sval_All Pf Ps Pc k -> ref_key k = Some bs -> Q bs.
+Proof.
+  induction k; intros bs' HA H; cbn [ref_key sval_All] in *; try discriminate;
+    try (injection H as <-).
+  - apply Q_quoted, Q_bool.
+  - apply Q_quoted, Q_int.
+  - destruct f as [tok|]; [|discriminate]. injection H as <-. apply Q_quoted, Qtok. exact HA.
+  - destruct f as [tok|]; [|discriminate]. injection H as <-. apply Q_quoted, Qtok. exact HA.
+  - apply Qchar. exact HA.
+  - apply Qstr. exact HA.
+  - apply IHk; assumption.
+  - apply Qstr. exact HA.
+  - apply IHk; assumption.
+Qed.
+
+Definition closed_of (v : sval) : Prop :=
+  forall bs, sval_All Pf Ps Pc v -> ref_enc v = Some bs -> Q bs.
+
+Lemma Q_items : forall es items, Forall closed_of es -> all_of (sval_All Pf Ps Pc) es ->
+  sequence (map ref_enc es) = Some items -> Forall Q items.
+Proof.
+  intros es items HF HA Hs. apply all_of_Forall in HA. apply sequence_Forall2 in Hs.
+  induction Hs as [|e i es' items' He _ IH]; [constructor|].
+  pose proof (Forall_inv HF) as Hc. pose proof (Forall_inv_tail HF) as HF'.
+  pose proof (Forall_inv HA) as HAe. pose proof (Forall_inv_tail HA) as HA'.
+  constructor; [apply (Hc i HAe He)|apply IH; assumption].
+Qed.
+
+Lemma Q_members : forall kvs items, Forall (fun kv : sval * sval => closed_of (snd kv)) kvs ->
+  all_of (fun kv => sval_All Pf Ps Pc (fst kv) /\ sval_All Pf Ps Pc (snd kv)) kvs ->
+  sequence (map (fun kv => ref_member (ref_key (fst kv)) (ref_enc (snd kv))) kvs) = Some items ->
+  Forall Q items.
+Proof.
+  intros kvs items HF HA Hs. apply all_of_Forall in HA. apply sequence_Forall2 in Hs.
+  induction Hs as [|[k x] i kvs' items' He _ IH]; [constructor|].
+  pose proof (Forall_inv HF) as Hc. pose proof (Forall_inv_tail HF) as HF'.
+  pose proof (Forall_inv HA) as [HAk HAx]. pose proof (Forall_inv_tail HA) as HA'.
+  constructor; [|apply IH; assumption].
+  cbn [fst snd] in *. destruct (ref_key k) as [kb|] eqn:Hk; [|discriminate].
+  destruct (ref_enc x) as [xb|] eqn:Hx; [|discriminate]. cbn [ref_member] in He. injection He as <-.
+  apply Q_member; [apply (Q_key k kb HAk Hk)|apply (Hc xb HAx Hx)].
+Qed.
+
+Lemma Q_fields : forall fs items, Forall (fun kv : list byte * sval => closed_of (snd kv)) fs ->
+  all_of (fun kv => Ps (fst kv) /\ sval_All Pf Ps Pc (snd kv)) fs ->
+  sequence (map (fun kv => ref_member (Some (ref_string (fst kv))) (ref_enc (snd kv))) fs) = Some items ->
+  Forall Q items.
+Proof.
+  intros fs items HF HA Hs. apply all_of_Forall in HA. apply sequence_Forall2 in Hs.
+  induction Hs as [|[k x] i fs' items' He _ IH]; [constructor|].
+  pose proof (Forall_inv HF) as Hc. pose proof (Forall_inv_tail HF) as HF'.
+  pose proof (Forall_inv HA) as [HAk HAx]. pose proof (Forall_inv_tail HA) as HA'.
+  constructor; [|apply IH; assumption].
+  cbn [fst snd] in *. destruct (ref_enc x) as [xb|] eqn:Hx; [|discriminate].
+  cbn [ref_member] in He. injection He as <-.
+  apply Q_member; [apply Qstr; exact HAk|apply (Hc xb HAx Hx)].
+Qed.
+
+Theorem ref_enc_closed : forall v, closed_of v.
+Proof.
+  induction v using sval_ind'; unfold closed_of; intros bs' HA Hr; cbn [ref_enc sval_All] in *;
+    try (injection Hr as <-).
+  - apply Q_bool.
+  - apply Q_int.
+  - apply Q_float; exact HA.
+  - apply Q_float; exact HA.
+  - apply Qchar; exact HA.
+  - apply Qstr; exact HA.
+  - unfold ref_array. apply Q_bracketed; try lia.
+    induction bs as [|b r IH]; cbn [map]; constructor; [apply Q_int|exact IH].
+  - apply Q_null.
+  - apply IHv; assumption.
+  - apply Q_null.
+  - apply Q_null.
+  - apply Qstr; exact HA.
+  - apply IHv; assumption.
+  - destruct (ref_enc v) as [xb|] eqn:Hx; [|discriminate]. injection Hr as <-.
+    destruct HA as [Hv HAx]. apply Q_tagged; [exact Hv|apply IHv; auto].
+  - destruct (sequence (map ref_enc es)) as [items|] eqn:Hs; [|discriminate]. injection Hr as <-.
+    unfold ref_array. apply Q_bracketed; try lia. eapply Q_items; eassumption.
+  - destruct (sequence (map ref_enc es)) as [items|] eqn:Hs; [|discriminate]. injection Hr as <-.
+    unfold ref_array. apply Q_bracketed; try lia. eapply Q_items; eassumption.
+  - destruct (sequence (map ref_enc es)) as [items|] eqn:Hs; [|discriminate]. injection Hr as <-.
+    unfold ref_array. apply Q_bracketed; try lia. eapply Q_items; eassumption.
+  - destruct (sequence (map ref_enc es)) as [items|] eqn:Hs; [|discriminate]. injection Hr as <-.
+    destruct HA as [Hv HAx]. apply Q_tagged; [exact Hv|].
+    unfold ref_array. apply Q_bracketed; try lia. eapply Q_items; eassumption.
+  - destruct (sequence _) as [items|] eqn:Hs; [|discriminate]. injection Hr as <-.
+    unfold ref_object. apply Q_bracketed; try lia. eapply Q_members; eassumption.
+  - destruct (sequence _) as [items|] eqn:Hs; [|discriminate]. injection Hr as <-.
+    unfold ref_object. apply Q_bracketed; try lia. eapply Q_fields; eassumption.
+  - destruct (sequence _) as [items|] eqn:Hs; [|discriminate]. injection Hr as <-.
+    destruct HA as [Hv HAx]. apply Q_tagged; [exact Hv|].
+    unfold ref_object. apply Q_bracketed; try lia. eapply Q_fields; eassumption.
+Qed.
+End Closed.
+
+(* --- the bytes of an escaped string *)
+Lemma hexl_bounds : forall d, d < 16 -> 48 <= hexl d <= 102.
+Proof. intros d Hd. unfold hexl. destruct (N.ltb_spec d 10); lia. Qed.
+
+Lemma rfc_escape_bytes : forall b, b < 128 -> Forall (fun x => 32 <= x < 128) (rfc_escape b).
+Proof.
+  intros b Hb. unfold rfc_escape.
+  repeat match goal with |- context [if ?c then _ else _] => destruct c end;
+    repeat constructor; try lia.
+  - pose proof (N.div_mod b 16 ltac:(discriminate)). pose proof (N.mod_upper_bound b 16 ltac:(discriminate)).
+    set (q := b / 16) in *. set (r := b mod 16) in *. clearbody q r.
+    pose proof (hexl_bounds q ltac:(lia)). lia.
+  - pose proof (N.div_mod b 16 ltac:(discriminate)). pose proof (N.mod_upper_bound b 16 ltac:(discriminate)).
+    set (q := b / 16) in *. set (r := b mod 16) in *. clearbody q r.
+    pose proof (hexl_bounds q ltac:(lia)). lia.
+  - pose proof (N.mod_upper_bound b 16 ltac:(discriminate)). set (r := b mod 16) in *. clearbody r.
+    pose proof (hexl_bounds r ltac:(lia)). lia.
+  - pose proof (N.mod_upper_bound b 16 ltac:(discriminate)). set (r := b mod 16) in *. clearbody r.
+    pose proof (hexl_bounds r ltac:(lia)). lia.
+Qed.
+
+Lemma needs_escape_false : forall b, needs_escape b = false -> 32 <= b /\ b <> 34 /\ b <> 92.
+Proof.
+  intros b H. unfold needs_escape in H. rewrite !orb_false_iff, N.ltb_ge, !N.eqb_neq in H. lia.
+Qed.
+
+Lemma needs_escape_lt : forall b, needs_escape b = true -> b < 128.
+Proof. intros b H. apply needs_escape_spec in H. lia. Qed.
+
+(* no control byte in an escaped string, whatever the bytes of the string *)
+Lemma ref_string_clean : forall s, Forall (fun b => 32 <= b) (ref_string s).
+Proof.
+  intros s. unfold ref_string. apply Forall_app. split; [repeat constructor; lia|].
+  apply Forall_app. split; [|repeat constructor; lia].
+  induction s as [|b r IH]; cbn [flat_map]; [constructor|]. apply Forall_app. split; [|exact IH].
+  unfold ref_byte. destruct (needs_escape b) eqn:Hn.
+  - eapply Forall_impl; [|apply rfc_escape_bytes, needs_escape_lt; exact Hn]. cbv beta. intros; lia.
+  - apply needs_escape_false in Hn. constructor; [lia|constructor].
+Qed.
+
+Lemma ref_string_utf8 : forall s, utf8 s -> utf8 (ref_string s).
+Proof.
+  intros s Hs. unfold ref_string. apply utf8_app; [apply utf8_ascii; repeat constructor; lia|].
+  apply utf8_app; [|apply utf8_ascii; repeat constructor; lia].
+  apply utf8_flat_map; [| |exact Hs].
+  - intros b Hb. unfold ref_byte. replace (needs_escape b) with false; [reflexivity|].
+    symmetry. unfold needs_escape. rewrite !orb_false_iff, N.ltb_ge, !N.eqb_neq. lia.
+  - intros b Hb. unfold ref_byte. destruct (needs_escape b).
+    + eapply Forall_impl; [|apply rfc_escape_bytes; exact Hb]. cbv beta. intros; lia.
+    + constructor; [exact Hb|constructor].
+Qed.
+
+Theorem clean_bytes : forall v n bs, floats_clean v -> zser v n = Ok bs -> Forall (fun b => 32 <= b) bs.
+Proof.
+  intros v n bs Hf H. apply equal in H.
+  refine (ref_enc_closed (Forall (fun b => 32 <= b)) _ _ _ _ _ _ _ _ v bs Hf H).
+  - intros a b Ha Hb. apply Forall_app. auto.
+  - intros l Hl. eapply Forall_impl; [|exact Hl]. cbv beta. intros; lia.
+  - intros tok Ht. exact Ht.
+  - intros s _. apply ref_string_clean.
+  - intros c _. apply ref_string_clean.
+Qed.
+
+Theorem output_utf8 : forall v n bs, text_utf8 v -> zser v n = Ok bs -> utf8 bs.
+Proof.
+  intros v n bs Hf H. apply equal in H.
+  refine (ref_enc_closed utf8 _ _ _ _ _ _ _ _ v bs Hf H).
+  - apply utf8_app.
+  - intros l Hl. apply utf8_ascii. eapply Forall_impl; [|exact Hl]. cbv beta. intros; lia.
+  - intros tok Ht. exact Ht.
+  - intros s Hs. apply ref_string_utf8. exact Hs.
+  - intros c Hc. apply ref_string_utf8. apply utf8_encode_valid. exact Hc.
+Qed.
+
+(* ------------------------------------------------------------------ the output is JSON *)
+Lemma hexl_hexdig : forall d, d < 16 -> hexdig (hexl d).
+Proof. intros d Hd. unfold hexdig, hexl. destruct (N.ltb_spec d 10); lia. Qed.
+
+Lemma jchars_ref_byte : forall b, jchars (ref_byte b).
+Proof.
+  intros b. unfold ref_byte. destruct (needs_escape b) eqn:Hn.
+  - pose proof (needs_escape_lt b Hn) as Hb. unfold rfc_escape.
+    repeat match goal with |- context [if ?c then _ else _] => destruct c end;
+      try (apply (jc_esc _ []); [cbn [In]; tauto|constructor]).
+    pose proof (N.div_mod b 16 ltac:(discriminate)). pose proof (N.mod_upper_bound b 16 ltac:(discriminate)).
+    apply (jc_u 48 48 _ _ []).
+    + unfold hexdig; lia.
+    + unfold hexdig; lia.
+    + apply hexl_hexdig. set (q := b / 16) in *. set (r := b mod 16) in *. clearbody q r. lia.
+    + apply hexl_hexdig. assumption.
+    + constructor.
+  - apply needs_escape_false in Hn. apply jc_plain; [exact Hn|constructor].
+Qed.
+
+Lemma jstring_ref_string : forall s, jstring (ref_string s).
+Proof.
+  intros s. unfold ref_string. cbn [app]. constructor.
+  induction s as [|b r IH]; cbn [flat_map]; [constructor|]. apply jchars_app; [apply jchars_ref_byte|exact IH].
+Qed.
+
+Lemma jstring_quoted_int : forall z, jstring (quoted (fmt_int z)).
+Proof.
+  intros z. unfold quoted. cbn [app]. constructor.
+  pose proof (fmt_int_bytes z) as H. induction H as [|b r Hb _ IH]; constructor; [|exact IH].
+  unfold unescaped. lia.
+Qed.
+
+Lemma jstring_key : forall k bs, key_ok k = true -> ref_key k = Some bs -> jstring bs.
+Proof.
+  induction k; intros bs' Hk H; cbn [key_ok ref_key] in *; try discriminate; try (injection H as <-).
+  - apply jstring_quoted_int.
+  - apply jstring_ref_string.
+  - apply jstring_ref_string.
+  - apply jstring_ref_string.
+  - apply IHk; assumption.
+Qed.
+
+Lemma bracketed_plain : forall (opn cls : byte) (early : bool) items,
+  early = false \/ items = [] -> bracketed opn cls early items = [opn] ++ join [44] items ++ [cls].
+Proof.
+  intros opn cls early [|i r] [H|H]; subst; try discriminate; reflexivity.
+Qed.
+
+Lemma sequence_nil : forall A B (f : A -> option B) l items,
+  sequence (map f l) = Some items -> l = [] -> items = [].
+Proof. intros A B f l items H ->. cbn in H. injection H as <-. reflexivity. Qed.
+
+Lemma hint_ok_plain : forall A B (f : A -> option B) len (l : list A) items,
+  hint_ok len l = true -> sequence (map f l) = Some items -> hint0 len = false \/ items = [].
+Proof.
+  intros A B f len l items Hh Hs. unfold hint_ok in Hh. apply orb_true_iff in Hh. destruct Hh as [Hh|Hh].
+  - left. apply negb_true_iff. exact Hh.
+  - right. destruct l; [|discriminate]. eapply sequence_nil; [exact Hs|reflexivity].
+Qed.
+
+Definition json_of (v : sval) : Prop :=
+  forall bs, keys_ok v = true -> hints_ok v = true -> floats_ok v -> ref_enc v = Some bs -> jvalue bs.
+
+Lemma jvalue_tagged : forall variant content, jvalue content -> jvalue (ref_tagged variant content).
+Proof.
+  intros variant content Hc.
+  change (ref_tagged variant content)
+    with ([123] ++ join [44] (map member_text [(ref_string variant, content)]) ++ [125]).
+  apply jv_obj. constructor; [|constructor]. cbn [fst snd]. split; [apply jstring_ref_string|exact Hc].
+Qed.
+
+Lemma json_items : forall es items, Forall json_of es ->
+  forallb keys_ok es = true -> forallb hints_ok es = true -> all_of floats_ok es ->
+  sequence (map ref_enc es) = Some items -> Forall jvalue items.
+Proof.
+  intros es items HF Hk Hh Hf Hs. apply all_of_Forall in Hf. apply sequence_Forall2 in Hs.
+  induction Hs as [|e i es' items' He _ IH]; [constructor|].
+  cbn [forallb] in Hk, Hh. apply andb_true_iff in Hk, Hh. destruct Hk as [Hk Hk']. destruct Hh as [Hh Hh'].
+  pose proof (Forall_inv HF) as Hc. pose proof (Forall_inv_tail HF) as HF'.
+  pose proof (Forall_inv Hf) as Hfe. pose proof (Forall_inv_tail Hf) as Hf'.
+  constructor; [apply (Hc i Hk Hh Hfe He)|apply IH; assumption].
+Qed.
+
+Lemma json_members : forall kvs items, Forall (fun kv : sval * sval => json_of (snd kv)) kvs ->
+  forallb (fun kv => key_ok (fst kv) && keys_ok (snd kv)) kvs = true ->
+  forallb (fun kv => hints_ok (snd kv)) kvs = true ->
+  all_of (fun kv => floats_ok (fst kv) /\ floats_ok (snd kv)) kvs ->
+  sequence (map (fun kv => ref_member (ref_key (fst kv)) (ref_enc (snd kv))) kvs) = Some items ->
+  exists members, items = map member_text members /\
+                  Forall (fun m => jstring (fst m) /\ jvalue (snd m)) members.
+Proof.
+  intros kvs items HF Hk Hh Hf Hs. apply all_of_Forall in Hf. apply sequence_Forall2 in Hs.
+  induction Hs as [|[k x] i kvs' items' He _ IH]; [exists []; split; [reflexivity|constructor]|].
+  cbn [forallb fst snd] in Hk, Hh. apply andb_true_iff in Hk, Hh.
+  destruct Hk as [Hk Hk']. destruct Hh as [Hh Hh']. apply andb_true_iff in Hk. destruct Hk as [Hkk Hkx].
+  pose proof (Forall_inv HF) as Hc. pose proof (Forall_inv_tail HF) as HF'.
+  pose proof (Forall_inv Hf) as [Hfk Hfx]. pose proof (Forall_inv_tail Hf) as Hf'.
+  destruct (IH HF' Hk' Hh' Hf') as (members & -> & Hm).
+  cbn [fst snd] in *. destruct (ref_key k) as [kb|] eqn:Hrk; [|discriminate].
+  destruct (ref_enc x) as [xb|] eqn:Hrx; [|discriminate]. cbn [ref_member] in He. injection He as <-.
+  exists ((kb, xb) :: members). split; [reflexivity|]. constructor; [|exact Hm]. cbn [fst snd]. split.
+  - apply (jstring_key k kb Hkk Hrk).
+  - apply (Hc xb Hkx Hh Hfx Hrx).
+Qed.
+
+Lemma json_fields : forall fs items, Forall (fun kv : list byte * sval => json_of (snd kv)) fs ->
+  forallb (fun kv => keys_ok (snd kv)) fs = true ->
+  forallb (fun kv => hints_ok (snd kv)) fs = true ->
+  all_of (fun kv : list byte * sval => True /\ floats_ok (snd kv)) fs ->
+  sequence (map (fun kv => ref_member (Some (ref_string (fst kv))) (ref_enc (snd kv))) fs) = Some items ->
+  exists members, items = map member_text members /\
+                  Forall (fun m => jstring (fst m) /\ jvalue (snd m)) members.
+Proof.
+  intros fs items HF Hk Hh Hf Hs. apply all_of_Forall in Hf. apply sequence_Forall2 in Hs.
+  induction Hs as [|[k x] i fs' items' He _ IH]; [exists []; split; [reflexivity|constructor]|].
+  cbn [forallb fst snd] in Hk, Hh. apply andb_true_iff in Hk, Hh.
+  destruct Hk as [Hkx Hk']. destruct Hh as [Hh Hh'].
+  pose proof (Forall_inv HF) as Hc. pose proof (Forall_inv_tail HF) as HF'.
+  pose proof (Forall_inv Hf) as [_ Hfx]. pose proof (Forall_inv_tail Hf) as Hf'.
+  destruct (IH HF' Hk' Hh' Hf') as (members & -> & Hm).
+  cbn [fst snd] in *. destruct (ref_enc x) as [xb|] eqn:Hrx; [|discriminate].
+  cbn [ref_member] in He. injection He as <-.
+  exists ((ref_string k, xb) :: members). split; [reflexivity|]. constructor; [|exact Hm]. cbn [fst snd]. split.
+  - apply jstring_ref_string.
+  - apply (Hc xb Hkx Hh Hfx Hrx).
+Qed.
+
+Lemma jvalue_array : forall early items, early = false \/ items = [] ->
+  Forall jvalue items -> jvalue (ref_array early items).
+Proof.
+  intros early items Hp Hi. unfold ref_array. rewrite bracketed_plain by exact Hp. apply jv_arr. exact Hi.
+Qed.
+
+Lemma jvalue_object : forall early members, early = false \/ map member_text members = [] ->
+  Forall (fun m => jstring (fst m) /\ jvalue (snd m)) members ->
+  jvalue (ref_object early (map member_text members)).
+Proof.
+  intros early members Hp Hm. unfold ref_object. rewrite bracketed_plain by exact Hp. apply jv_obj. exact Hm.
+Qed.
+
+Theorem ref_enc_json : forall v, json_of v.
+Proof.
+  induction v using sval_ind'; unfold json_of; intros bs' Hk Hh Hf Hr;
+    cbn [ref_enc keys_ok hints_ok] in *; unfold floats_ok in Hf; cbn [sval_All fval_All] in Hf;
+    try (injection Hr as <-).
+  - destruct b; constructor.
+  - apply jv_num. apply fmt_int_jnumber.
+  - destruct f as [tok|]; [apply jv_num; exact Hf|constructor].
+  - destruct f as [tok|]; [apply jv_num; exact Hf|constructor].
+  - apply jv_str, jstring_ref_string.
+  - apply jv_str, jstring_ref_string.
+  - apply jvalue_array; [left; reflexivity|].
+    induction bs as [|b r IH]; cbn [map]; constructor; [apply jv_num, fmt_int_jnumber|exact IH].
+  - constructor.
+  - apply IHv; assumption.
+  - constructor.
+  - constructor.
+  - apply jv_str, jstring_ref_string.
+  - apply IHv; assumption.
+  - destruct (ref_enc v) as [xb|] eqn:Hx; [|discriminate]. injection Hr as <-.
+    apply jvalue_tagged. apply (IHv xb Hk Hh (proj2 Hf) Hx).
+  - destruct (sequence (map ref_enc es)) as [items|] eqn:Hs; [|discriminate]. injection Hr as <-.
+    apply andb_true_iff in Hh. destruct Hh as [Hh Hh'].
+    apply jvalue_array; [exact (hint_ok_plain _ _ ref_enc _ es items Hh Hs)|eapply json_items; eassumption].
+  - destruct (sequence (map ref_enc es)) as [items|] eqn:Hs; [|discriminate]. injection Hr as <-.
+    apply andb_true_iff in Hh. destruct Hh as [Hh Hh'].
+    apply jvalue_array; [exact (hint_ok_plain _ _ ref_enc _ es items Hh Hs)|eapply json_items; eassumption].
+  - destruct (sequence (map ref_enc es)) as [items|] eqn:Hs; [|discriminate]. injection Hr as <-.
+    apply andb_true_iff in Hh. destruct Hh as [Hh Hh'].
+    apply jvalue_array; [exact (hint_ok_plain _ _ ref_enc _ es items Hh Hs)|eapply json_items; eassumption].
+  - destruct (sequence (map ref_enc es)) as [items|] eqn:Hs; [|discriminate]. injection Hr as <-.
+    apply andb_true_iff in Hh. destruct Hh as [Hh Hh']. destruct Hf as [_ Hf]. apply jvalue_tagged.
+    apply jvalue_array; [exact (hint_ok_plain _ _ ref_enc _ es items Hh Hs)|eapply json_items; eassumption].
+  - destruct (sequence _) as [items|] eqn:Hs; [|discriminate]. injection Hr as <-.
+    apply andb_true_iff in Hh. destruct Hh as [Hh Hh'].
+    pose proof (hint_ok_plain _ _ _ _ _ _ Hh Hs) as Hp.
+    destruct (json_members kvs items H Hk Hh' Hf Hs) as (members & -> & Hm).
+    apply jvalue_object; assumption.
+  - destruct (sequence _) as [items|] eqn:Hs; [|discriminate]. injection Hr as <-.
+    apply andb_true_iff in Hh. destruct Hh as [Hh Hh'].
+    pose proof (hint_ok_plain _ _ _ _ _ _ Hh Hs) as Hp.
+    destruct (json_fields fs items H Hk Hh' Hf Hs) as (members & -> & Hm).
+    apply jvalue_object; assumption.
+  - destruct (sequence _) as [items|] eqn:Hs; [|discriminate]. injection Hr as <-.
+    apply andb_true_iff in Hh. destruct Hh as [Hh Hh']. destruct Hf as [_ Hf].
+    pose proof (hint_ok_plain _ _ _ _ _ _ Hh Hs) as Hp.
+    destruct (json_fields fs items H Hk Hh' Hf Hs) as (members & -> & Hm).
+    apply jvalue_tagged. apply jvalue_object; assumption.
+Qed.
+
+(* a successful output is a JSON text (RFC 8259), provided the value's length hints are truthful
+   and its float texts are JSON numbers *)
+Theorem is_json : forall v n bs, hints_ok v = true -> floats_ok v -> zser v n = Ok bs -> jvalue bs.
+Proof.
+  intros v n bs Hh Hf H. destruct (zser_ok_inv v n bs H) as (Hk & Hr & _ & _).
+  apply (ref_enc_json v bs Hk Hh Hf Hr).
+Qed.
